@@ -182,7 +182,8 @@ impl Resolver<'_> {
             closure.args.push(arg);
             closure.params.insert(closure.args.len() - 1, param);
         }
-        if let Some((name, _)) = named_args.into_iter().next() {
+        // (the smallest name, so that the message does not depend on hash-map order)
+        if let Some(name) = named_args.into_keys().min() {
             // TODO: report all remaining named_args as separate errors
             return Err(Error::new_simple(format!(
                 "unknown named argument `{name}` to closure {:?}",
